@@ -35,7 +35,10 @@ CONF = dict(
           'buffer (9187..10000 bytes: MSG_TRUNC), client.badlocal (local address that is no IP address: an error, nothing sent), client.ctxdone (context already cancelled, deadline in the past, deadline passing '
           'between the tries of an interleaved-mode call: a measurement is reported only if a datagram was accepted), keyless NTS forgeries (identifier copied from the request, '
           'authenticator with nonce 16 and ciphertext length 0 - padded, followed by another field, or too short to be parsed -, ciphertext of 1..15 bytes, nonce length 0, a '
-          'field that is only its header, a made-up 16-byte tag). Observed: the error of every exchange (call logger), the four timestamps combined (recording filter), the offset and error '
+          'field that is only its header, a made-up 16-byte tag); svc.authmodes (the real service\'s loadConfig / createClocks, run through harness/svclib and the wiring hook of /repo, on configuration '
+          'texts with every list of up to three auth_modes over "nts", "spao" and an unknown string - every order, repetitions, the empty list - with and without a SCION daemon '
+          'address, for a SCION host with an IP reference clock, a SCION reference clock and a SCION peer and for an IP-only host: the authentication flags and the NTS-KE fetcher '
+          'of every client of every clock; skipped with a NOTE if the checkout has no wiring hook). Observed: the error of every exchange (call logger), the four timestamps combined (recording filter), the offset and error '
           'returned, the timestamp fields of every request on the wire. A history is non-trivial when at least one delivered datagram differs from a genuine response; '
           'distinct = distinct (kind, input)'),
     assumptions=['symbolic AEAD for the NTS clause (C05_nts_authentic: a ciphertext opens only if the key holder sealed it with exactly that associated data)',
@@ -67,8 +70,9 @@ CONF = dict(
                  'valid AEAD tag under the S2C key, and - SCION client holding the DRKey host-host key - no packet authenticator for the server\'s SPI and algorithm whose MAC '
                  'fails to verify, whose transmit/receive fields are the reported t2/t1 with t1 <= t2, where for an interleaved response t1 must be the receive field of the '
                  'datagram on which the previous SUCCESSFUL measurement of this client was based, as recorded by the oracle itself along the history (C05_basis; never what the '
-                 'request quotes: a timestamp of a skipped or rejected datagram must not enter a measurement); a returned offset is that of an accepted exchange; a cookie in the pool '
+                 'request quotes: a timestamp of a skipped or rejected datagram must not enter a measurement); a returned offset is that of an accepted exchange; a call reports a measurement only if it accepted a datagram; with "nts" among the configured auth_modes (anywhere in the list) every client the service builds has NTS on and an NTS-KE fetcher for its server; a cookie in the pool '
                  'after a call comes from the pool before it, a key exchange, or a datagram that passed all of these'),
     timeout_quick=900, timeout_thorough=3000,
-    min_cases={'client.badlocal': 1, 'client.ctxdone': 3, 'ip.hist': 480, 'ip.late': 12, 'ip.nofilter': 28, 'ip.servers': 64, 'ip6.hist': 12, 'scion.addrtype': 28, 'scion.allfail': 1, 'scion.allfailauth': 1, 'scion.auth': 160, 'scion.hist': 160, 'scion.late': 8, 'scion.lateauth': 3, 'scion.nofilter': 28, 'scion.nts': 38, 'scion.ntsauth': 40, 'scion.servers': 64},
+    no_floor=['svc.authmodes'],
+    min_cases={'client.badlocal': 1, 'client.ctxdone': 3, 'ip.hist': 479, 'ip.late': 12, 'ip.nofilter': 28, 'ip.servers': 64, 'ip6.hist': 11, 'scion.addrtype': 28, 'scion.allfail': 1, 'scion.allfailauth': 1, 'scion.auth': 160, 'scion.hist': 160, 'scion.late': 8, 'scion.lateauth': 3, 'scion.nofilter': 28, 'scion.nts': 38, 'scion.ntsauth': 40, 'scion.servers': 64},
 )
